@@ -522,7 +522,14 @@ Definition module_decl (m : vmodule) (s : estate) : result estate :=
    referenced definition had when the instance's turn came: an unnamed port of the width of the expression is made *)
 Definition pos_conn (cur ii rk : nat) (fresh : bool) (index : nat) (oe : option dexpr) (s : estate) : result estate :=
   match oe with
-  | None => Err EAssert         (* an empty position: "expected valid port identifier" (open finding V06-positional-empty) *)
+  | None =>
+      (* an empty position: nothing is connected; beyond the ports of the referenced definition an unnamed one-bit
+         port still takes the position (populate_new_port(port, None, 0, 0, None)) *)
+      if fresh
+      then let rd := get_def rk s in
+           Ok (put_def rk (set_ports rd (ed_ports rd ++ [{| ep_name := None; ep_dir := None;
+                                                            ep_b := new_bundle (Some 0) (Some 0) 0 |}])) s)
+      else Ok s
   | Some e =>
       let* (d1, wires) := expr_wires e (get_def cur s) in
       let s1 := put_def cur d1 s in
